@@ -84,6 +84,12 @@ def accessor_cover(facts):
     """typed struct name -> (set of kinds its accessors cast children to, True if some accessor hands out a raw child)"""
     cover = {}
     cg = facts.callgraph()
+    node_types = set()
+    for f in facts.fns.values():
+        if (f.d.get('impl_trait') or '').endswith('AbstractSyntaxNode') and f.d.get('assoc_name') == 'cast':
+            mm = re.search(r'parser::(\w+)', f.d.get('impl_self') or '')
+            if mm:
+                node_types.add(mm.group(1))
     for f in facts.fns.values():
         m = re.match(r'oal_syntax::parser::([A-Z]\w*)::(\w+)$', f.qname)
         if not m or not f.mir or f.d.get('impl_trait'):
@@ -92,6 +98,19 @@ def accessor_cover(facts):
         cov = cover.setdefault(ty, [set(), False, []])
         cov[2].append(m.group(2))
         fam = [f] + list(facts.closures_of(f))
+        # helpers that are not accessors of another node type (free functions, associated functions of plain enums such
+        # as `UriSegment::cast`) are part of the accessor
+        for _ in range(2):
+            for g in list(fam):
+                for x in cg.get(g.id, ()):
+                    h = facts.fns.get(x)
+                    if h is None or h in fam or not h.qname.startswith('oal_syntax::parser::') or h.d.get('impl_trait'):
+                        continue
+                    owner = re.match(r'oal_syntax::parser::([A-Z]\w*)::', h.qname)
+                    if owner and owner.group(1) in node_types:
+                        continue
+                    fam.append(h)
+                    fam.extend(facts.closures_of(h))
         ncast = len(cov[0])
         hands_out_node = 'grammar::NodeRef<' in (f.d.get('sig_output') or '')
         casts_here = False
